@@ -16,6 +16,7 @@ type OblResult struct {
 	Verdict Verdict
 	OK      bool // discharged (unsat), or for covers: sat
 	Batched bool
+	Skipped bool // not part of this run (decided by the checks of the properties that own the clause)
 }
 
 type FuncReport struct {
@@ -35,6 +36,8 @@ type Run struct {
 	genMu   sync.Mutex
 	cache   map[*Contract]*FuncReport
 	Workers int
+	// Only, when set, restricts discharging to the obligations it accepts (the others are reported as skipped)
+	Only func(o *Obligation) bool
 }
 
 func NewRun(g *Gen, dir string, timeout time.Duration, seed int) *Run {
@@ -75,6 +78,9 @@ func (r *Run) VerifyContract(con *Contract) *FuncReport {
 func (r *Run) discharge(fr *FuncResult) []*OblResult {
 	var proofs, covers []*Obligation
 	for _, o := range fr.Obligations {
+		if r.Only != nil && !r.Only(o) {
+			continue
+		}
 		if o.Cover {
 			covers = append(covers, o)
 		} else {
@@ -85,6 +91,9 @@ func (r *Run) discharge(fr *FuncResult) []*OblResult {
 	idx := map[*Obligation]int{}
 	for i, o := range fr.Obligations {
 		idx[o] = i
+		if r.Only != nil && !r.Only(o) {
+			res[i] = &OblResult{Obl: o, Verdict: Verdict{Status: "skipped"}, OK: true, Skipped: true}
+		}
 	}
 	// 1. batch all proof obligations
 	batchOK := false
